@@ -251,6 +251,8 @@ static int recv_events(m_ctx_t *c, int timeout) {
             }
             evt_priv_t *evt = new_evt(p);
             m_evt_t *msg = NULL;
+            /* Do not inherit any errno left behind by user callbacks run for previous events of this batch */
+            errno = 0;
             if (evt) {
                 msg = &evt->evt;
                 fetch_ms(&msg->ts, NULL);
